@@ -200,8 +200,8 @@ class DocGen:
         r = rng.random()
         if r < 0.2 and depth + 1 < self.max_depth:
             cls = rng.choice(CONTAINERS + ["QTabWidget"])
-        elif self.components and r < 0.45:
-            cls = rng.choice(sorted(self.components))
+        elif [k for k, b in self.components.items() if b != "QAction"] and r < 0.45:
+            cls = rng.choice(sorted(k for k, b in self.components.items() if b != "QAction"))
         else:
             cls = rng.choice(LEAVES)
         c = self._new(parent, cls, "widget")
@@ -239,6 +239,9 @@ class DocGen:
             m = self._new(parent, "QMenu", "menu")
             self._grow_menu(m, depth + 1)
             return m
+        acts = sorted(k for k, b in self.components.items() if b == "QAction")
+        if acts and r < 0.6:
+            return self._new(parent, rng.choice(acts), "action")     # a component rooted in QAction
         return self._new(parent, "QAction", "action")
 
     # ------------------------------------------------------------------ ids
@@ -794,7 +797,7 @@ class Doc:
 
 FAULT_KINDS = ["unknown-property", "ill-typed", "unsupported-syntax", "dynamic-attached", "read-only",
                "unknown-signal", "duplicate-binding", "duplicate-grouped", "duplicate-attached",
-               "unknown-type", "invalid-type", "unknown-attached-type"]
+               "unknown-type", "invalid-type", "unknown-attached-type", "ill-typed-pseudo"]
 
 
 class Fault:
@@ -807,6 +810,12 @@ class Fault:
 def plant_fault(rng, doc, kind):
     """Mutates `doc` (use a deep copy) by planting one fault; re-prints canonically. Returns Fault or None."""
     objs = [o for o in doc.objects() if o.kind != "separator"]
+    if kind in ("unknown-property", "unknown-signal") and rng.random() < 0.25:
+        # ... or on a separator action (`QAction { separator: true }`): it has no element of its own, only its parent's
+        # <addaction name="separator"/>
+        seps = [o for o in doc.objects() if o.kind == "separator"]
+        if seps:
+            objs = seps
     in_layout = [o for o in objs if o.parent is not None and o.parent.kind == "layout"]
     nonroot = [o for o in objs if o.parent is not None]
     b = None
@@ -821,6 +830,22 @@ def plant_fault(rng, doc, kind):
         o, n = rng.choice(cands)
         src = {"enabled": rng.choice(('"yes"', "1", "Qt.AlignLeft")), "toolTip": rng.choice(("1", "true", "1.5")),
                "windowTitle": rng.choice(("42", "false")), "minimumWidth": rng.choice(('"10"', "true", "1.5"))}[n]
+        b = Binding((n,), src, "fault")
+    elif kind == "ill-typed-pseudo":
+        # pseudo properties are evaluated by special code, not by the generic property pass
+        cands = []
+        for o in objs:
+            if o.cls == "QGridLayout":
+                cands += [(o, n, s) for n in ("rows", "columns") if not _has_binding(o, n) for s in ('"3"', "true", "1.5")]
+            if o.cls == "QPushButton" and not _has_binding(o, "default_"):
+                cands += [(o, "default_", '"yes"'), (o, "default_", "1")]
+            if o.cls in ("QComboBox", "QListWidget") and not _has_binding(o, "model"):
+                cands += [(o, "model", "1"), (o, "model", '"a"'), (o, "model", "[1, 2]")]
+            if o.kind in ("widget", "menu") and not _has_binding(o, "actions") and getattr(o, "explicit_actions", None) is None:
+                cands += [(o, "actions", "1"), (o, "actions", '"x"')]
+        if not cands:
+            return None
+        o, n, src = rng.choice(cands)
         b = Binding((n,), src, "fault")
     elif kind == "unsupported-syntax":
         cands = [o for o in objs if o.kind in ("widget", "menu") and not _has_binding(o, "toolTip")]
